@@ -22,6 +22,8 @@ Inductive case :=
          (caller_after : option cfgobs)  (* the caller's own tls.Config after the call *)
 | CForAddr (c : cfgobs) (addr : list Z) (result : cfgobs) (same_ptr : bool) (caller_after : cfgobs)
 | CJoin (host port out : list Z)         (* HostInfo.HostnameAndPort *)
+| CResolve (host port : list Z) (literal : option (list Z)) (ips : list (list Z * bool)) (prefer_v4 : bool)
+           (outs : list (list Z * list Z)) (* addrsToHosts on one contact point: (ConnectAddress text, HostnameAndPort) per host *)
 | CWrap (c : option cfgobs) (addr : list Z) (issuer : Z) (names : list (list Z))
         (ok wrapped : bool) (caller_after : option cfgobs)      (* public WrapTLS against a TLS server *)
 | CHandshake (au : authn) (fs : list frame)
@@ -110,6 +112,9 @@ Definition check (c : case) : bool :=
       let '(h', a) := tls_config_for_addr h 0%nat addr in
       obs_eqb (observe h' a) result && Bool.eqb same_ptr (Nat.eqb a 0) && obs_eqb (observe h' 0%nat) caller_after
   | CJoin host port out => zlist_eqb (join_host_port host port) out
+  | CResolve host port literal ips pv4 outs =>
+      let his := resolve_contact host port literal ips pv4 in
+      zll_eqb (map hi_addr his) (map fst outs) && zll_eqb (map hostname_and_port his) (map snd outs)
   | CWrap c addr issuer names ok wrapped caller_after =>
       let '(h, oc) := heap_of c in
       opt_eqb obs_eqb (observe_caller
